@@ -187,6 +187,9 @@ func (fr *Frame) execInstr(ins ssa.Instruction) {
 		fr.convert(x)
 	case *ssa.MakeInterface:
 		fr.setVal(x, fr.makeInterface(x.X.Type(), fr.val(x.X)))
+		if q.opts.OnMakeInterface != nil {
+			q.opts.OnMakeInterface(fr, x, fr.vals[x])
+		}
 	case *ssa.TypeAssert:
 		fr.typeAssert(x)
 	case *ssa.Extract:
@@ -268,7 +271,7 @@ func (fr *Frame) execInstr(ins ssa.Instruction) {
 		fr.nextFacts(x, v)
 	case *ssa.Go:
 		q.note("go statement in " + fnKey(fr.fn))
-		q.havocAll(st)
+		fr.havocMod(st, &ModSet{All: true})
 	case *ssa.Defer:
 		flag := fr.cur.reach
 		fr.defers = append(fr.defers, deferRec{ins: x, flag: flag, order: len(fr.defers)})
@@ -279,10 +282,10 @@ func (fr *Frame) execInstr(ins ssa.Instruction) {
 	case *ssa.RunDefers:
 		fr.runDefers()
 	case *ssa.Send:
-		q.havocAll(st)
+		fr.havocMod(st, &ModSet{All: true})
 	case *ssa.Select:
 		q.note("select in " + fnKey(fr.fn))
-		q.havocAll(st)
+		fr.havocMod(st, &ModSet{All: true})
 		fr.vals[x] = fr.freshVal(fr.sym(x), x.Type(), fr.cur.reach, st)
 	case *ssa.SliceToArrayPointer, *ssa.MultiConvert:
 		v := ins.(ssa.Value)
@@ -562,7 +565,7 @@ func (fr *Frame) unop(x *ssa.UnOp) {
 	default:
 		fr.q.note("unmodelled unop " + x.Op.String())
 		if x.Op == token.ARROW {
-			fr.q.havocAll(fr.cur.st)
+			fr.havocMod(fr.cur.st, &ModSet{All: true})
 		}
 		fr.vals[x] = fr.freshVal(fr.sym(x), x.Type(), fr.cur.reach, fr.cur.st)
 	}
